@@ -344,17 +344,21 @@ def corr_mrp(ctx, rng):
 
     cases, lines = [], []
     for enc in (False, True):
-        for _ in range(ctx.scale(25, 150)):
+        # raw plaintext lengths around every varint length-class boundary of the CIPHERTEXT
+        # length (len + 16 when encrypted): 127/128, 16383/16384
+        raw_lens = [95, 96, 111, 112, 113, 127, 128, 129, 16351, 16352, 16367, 16368, 16369, 16383, 16384, 16385, 16495, 16496]
+        plan = [("raw", n) for n in raw_lens] + [("msg", None)] * ctx.scale(25, 150)
+        for kind, rawn in plan:
             c0 = rng.choice(COUNTERS8)
             msg = messages.create(protobuf.GENERIC_MESSAGE, identifier="x" * rng.choice([0, 1, 100, 127, 128, 300, 17000]))
-            data = msg.SerializeToString()
+            data = msg.SerializeToString() if kind == "msg" else pattern(rng, rawn)
             conn = MrpConnection("h", 0, None)
             conn._transport = tr = FakeTransport()
             if enc:
                 conn.enable_encryption(KEY_OUT, KEY_IN)
                 conn._chacha._enc_out = ToyAead(KEY_OUT)
                 conn._chacha._out_counter = c0
-            use_raw = rng.chance(0.5)
+            use_raw = rng.chance(0.5) or kind == "raw"
             try:
                 if use_raw:
                     conn.send_raw(data)
@@ -368,7 +372,7 @@ def corr_mrp(ctx, rng):
                 impl = "err:" + err_class(e)
             cases.append((("mrp-send", enc, len(data), c0, use_raw), impl, enc))
             lines.append(f"mrpsend {hx(KEY_OUT)} {int(enc)} {c0} {hx(data)}")
-            if wire is None:
+            if wire is None or kind == "raw":
                 continue
             # receive the same message on a peer whose in-key is KEY_OUT; optionally corrupted
             tag = "clean"
@@ -570,6 +574,61 @@ def oracle_hap(ctx, rng):
             ctx.fail("hap:corruption-accepted", {"pos": pos}, "altered or complete plaintext", "exception or strict frame prefix", "corrupted stream yielded plaintext")
 
 
+def oracle_hap_channel(ctx, rng):
+    """Through a real AbstractHAPChannel.data_received (what the AirPlay control/event/data
+    channels run): a stream with one corrupted frame, delivered frame by frame and in
+    random chunks, must hand the application a prefix (by whole frames) of the plaintext —
+    never the stream with a hole in it."""
+    from pyatv.auth.hap_channel import AbstractHAPChannel
+
+    class Chan(AbstractHAPChannel):
+        def __init__(self, ok, ik):
+            super().__init__(ok, ik)
+            self.got = b""
+
+        def handle_received(self):
+            self.got += self.buffer
+            self.buffer = b""
+
+    msgs = [pattern(rng, n) for n in (40, 1024, 300, 7, 1500)]
+    wires, frames, ctr = [], [], 0
+    for m in msgs:
+        w, fr = peer_hap_encrypt(KEY_IN, m, ctr)
+        ctr += len(fr)
+        wires.append(w)
+        frames += fr
+    clean = b"".join(wires)
+    prefixes = {b"".join(frames[:k]) for k in range(len(frames) + 1)}
+    from harness.core.prng import split_at
+
+    positions = [None] + sorted(rng.sample(range(len(clean)), ctx.scale(120, 1200)))
+    for pos in positions:
+        for mode in ("per-message", "chunks"):
+            ch = Chan(KEY_OUT, KEY_IN)
+            ch.transport = FakeTransport()
+            if pos is None:
+                bad_wires, bad = wires, clean
+            else:
+                bad = clean[:pos] + bytes([clean[pos] ^ (1 << rng.randrange(8))]) + clean[pos + 1:]
+                bad_wires, o = [], 0
+                for w in wires:
+                    bad_wires.append(bad[o:o + len(w)])
+                    o += len(w)
+            reads = bad_wires if mode == "per-message" else split_at(bad, rng.cuts(len(bad), 6))
+            for r in reads:
+                try:
+                    ch.data_received(r)
+                except Exception:  # noqa: BLE001
+                    break  # asyncio closes the transport on an exception from data_received
+            ctx.case(["hap-channel-oracle", pos, mode], pos is not None)
+            if pos is None:
+                if ch.got != b"".join(msgs):
+                    ctx.fail("hap-channel:roundtrip", {"mode": mode}, "differs", "exact plaintext", "clean HAP channel stream not delivered exactly")
+            elif ch.got not in prefixes or ch.got == b"".join(msgs):
+                ctx.fail("hap-channel:corruption-accepted", {"pos": pos, "mode": mode}, "%d bytes delivered, not a strict frame prefix" % len(ch.got),
+                         "a strict prefix of the plaintext by whole frames", "corrupted HAP channel stream delivered altered plaintext (or skipped a frame)")
+
+
 def oracle_companion(ctx, rng):
     from cryptography.hazmat.primitives.ciphers.aead import ChaCha20Poly1305
     from pyatv.protocols.companion.connection import CompanionConnection, FrameType
@@ -637,6 +696,62 @@ def oracle_companion(ctx, rng):
             it = iter(payloads)
             if not all(any(p == q for q in it) for p in nonempty) or nonempty == payloads and False:
                 ctx.fail("companion:corruption-accepted", {"pos": pos}, [p[:8].hex() for p in nonempty], "subsequence of sent payloads", "corrupted Companion stream delivered altered plaintext")
+
+
+def ref_read_varint(buf):
+    """independent protobuf varint reader (base-128, little-endian groups)"""
+    n, shift, i = 0, 0, 0
+    while True:
+        if i >= len(buf):
+            return None, b""
+        b = buf[i]
+        n |= (b & 0x7F) << shift
+        i += 1
+        if not b & 0x80:
+            return n, buf[i:]
+        shift += 7
+
+
+def oracle_mrp_send(ctx, rng):
+    """what MrpConnection writes, read by an independent peer: varint length (own reader)
+    must cover exactly the ciphertext, which must open to the plaintext under counter i"""
+    from cryptography.hazmat.primitives.ciphers.aead import ChaCha20Poly1305
+    from pyatv.protocols.mrp.connection import MrpConnection
+
+    conn = MrpConnection("h", 0, None)
+    conn._transport = tr = FakeTransport()
+    conn.enable_encryption(KEY_OUT, KEY_IN)
+    peer = ChaCha20Poly1305(KEY_OUT)
+    lens = [0, 1, 100, 111, 112, 113, 127, 128, 16367, 16368, 16369, 16383, 16384, 16400, 16495, 16496, 40000] + \
+           [rng.randrange(0, 20000) for _ in range(ctx.scale(20, 200))]
+    stream = b""
+    sent = []
+    for n in lens:
+        data = pattern(rng, n)
+        sent.append(data)
+        del tr.writes[:]
+        conn.send_raw(data)
+        stream += b"".join(tr.writes)
+    got = []
+    rest = stream
+    for i in range(len(sent)):
+        n, rest2 = ref_read_varint(rest)
+        ctx.case(["mrp-oracle-send", lens[i]], True)
+        if n is None or len(rest2) < n:
+            ctx.fail("mrp:send-length-prefix", {"len": lens[i], "index": i}, "length prefix does not delimit the message", "varint(len(ct)) ++ ct",
+                     "MRP length prefix written by send cannot be read by an independent peer")
+            return
+        ct, rest = rest2[:n], rest2[n:]
+        try:
+            pt = peer.decrypt(b"\x00" * 4 + i.to_bytes(8, "little"), ct, None)
+        except Exception as e:  # noqa: BLE001
+            ctx.fail("mrp:peer-cannot-decrypt", {"len": lens[i], "index": i}, type(e).__name__, "peer recovers plaintext", "independent peer rejects an MRP message")
+            return
+        if pt != sent[i]:
+            ctx.fail("mrp:plaintext-mismatch", {"len": lens[i]}, "differs", "exact", "peer recovered different plaintext")
+            return
+    if rest:
+        ctx.fail("mrp:send-trailing-bytes", {"trailing": len(rest)}, "bytes left over", "stream = messages", "MRP stream has bytes outside any message")
 
 
 def oracle_mrp(ctx, rng):
@@ -783,6 +898,8 @@ def run(ctx):
                 ctx.disagree({"op": key[0], "key": [str(x) for x in key], "line": line[:200]}, str(impl_c)[:300], str(model)[:300], where=key[0])
 
     oracle_hap(ctx, rng.fork("oracle-hap"))
+    oracle_hap_channel(ctx, rng.fork("oracle-hap-channel"))
     oracle_companion(ctx, rng.fork("oracle-comp"))
     oracle_mrp(ctx, rng.fork("oracle-mrp"))
+    oracle_mrp_send(ctx, rng.fork("oracle-mrp-send"))
     oracle_audio(ctx, rng.fork("oracle-audio"))
